@@ -31,7 +31,7 @@ ASSUMPTIONS = [
     'in the pure and RAM-emitter modes (Store.emit_data never emits None)',
 ]
 
-KEYS = ['a', 'b', 'c', 'x']
+KEYS = ['a', 'b', 'c', 'x', 'ab', 'a_b']    # 'a' is a string prefix of 'ab'
 UNITS = ['gram', 'millimole / liter', '1 / second']
 
 
